@@ -116,6 +116,7 @@ def StepOK (op : Op) (ok : Bool) (before after : Nat → Option View) (nb na : N
        Stable lop b a ∧
        (match lop with
         | .addF ts _ dom => ok = true → CreatedF b a ⟨ts, dom.getD [1]⟩
+        | .addFs tss => ok = true → ∀ ts ∈ tss, CreatedF b a ⟨ts, [1]⟩
         | .addS d _ => ok = true → CreatedS b a d
         | _ => True)
    | .copy g => ok = true → ∀ b ∈ before g, ∀ a ∈ after nb, SameContent b a
